@@ -107,9 +107,12 @@ SilenceLateK(m, k) ==
        /\ \A x \in Other(m, c) : x > d
 SilenceLate(m) == \E k \in 1..Len(m.offs) : SilenceLateK(m, k)
 
-\* the client pings every live incarnation at its interval: never two pings closer than half an interval (two keep-alive loops), and
+\* the client pings every live incarnation at its interval: never four pings within 7/4 of an interval (two keep-alive loops), and
 \* never silence for two intervals (+ slack) after a ping that was answered in time while the link stays up (no keep-alive loop)
-PingTooOftenC(m, c) == LET ps == PingsOf(m, c) IN II(m) >= 100000 /\ \E k \in 1..(Len(ps) - 1) : ps[k + 1].t - ps[k].t < II(m) \div 2
+\* (one ticker-driven loop: a tick delayed by a scheduling stall is followed by the next on-time tick, so two pings may come close
+\* together - but any FOUR consecutive pings span at least two intervals, because a Go ticker queues at most one tick; two loops put
+\* four pings into little more than one interval)
+PingTooOftenC(m, c) == LET ps == PingsOf(m, c) IN II(m) >= 100000 /\ \E k \in 1..(Len(ps) - 3) : ps[k + 3].t - ps[k].t < 2 * II(m) - II(m) \div 4
 PingMissingC(m, c) ==
     LET ps == PingsOf(m, c)
     IN /\ Det(m, c) = {} /\ ps # <<>>
